@@ -11,14 +11,16 @@ SHARD = 50
 RULE = ("(1) /proc/stat records printed by the spec's kernel printer (read through cpu_times(), cpu_times(percpu=True)): 7-12 counters per line, 0-16 CPUs (ids with gaps), counters from "
         "{0,1,99,2^31,2^32,2^53+1,2^63,2^64-1,10^25,random}, CLOCK_TICKS from {100,250,1000,1,1024}, shuffled/duplicated/missing tail lines; "
         "plus a malformed byte stream. (2) scripts of 2-7 calls of cpu_times/cpu_percent/cpu_times_percent (percpu or not; interval None, 0, >0 "
-        "with the kernel moving during the sleep, <0) issued by 1-3 real threads in a scripted order, 40% of them after a real re-import of psutil "
-        "over the first snapshot (import-time priming of the per-thread maps), over successive snapshots whose "
+        "with the kernel moving during the sleep, <0) issued by 1-3 real threads in a scripted order, every script after a real re-import of psutil "
+        "(40% by the script's main thread over an earlier snapshot = import-time priming; the rest by a parked foreign thread, so that no script thread has a sample), over successive snapshots whose "
         "per-field deltas are drawn from {0, 1 tick, <1 s, >=1 s, backwards, huge}; (3) scripts of Process.cpu_percent calls on two "
         "Process objects of one pid with scripted monotonic clock, cpu_count() and all five counters of the process tuple: utime/stime and, "
         "independently, cutime/cstime/delayacct_blkio_ticks (mixed, moving alone, or standing still). Non-trivial = at least one counter "
         "or one call; distinct = distinct canonical case hash.")
-TRUSTED = ["correspondence harness props/C07.py + pv/ (fake /proc/stat, patched time.sleep, psutil._timer, cpu_count_logical, CLOCK_TICKS; "
-           "importlib.reload of psutil._pslinux and psutil under pv.shim to replay the import over a fake /proc/stat; real threads run one call at a time in scripted order; float results are snapped to the model's/spec's exact rational when "
+TRUSTED = ["correspondence harness props/C07.py + pv/ (every case starts from a real re-import of psutil -- importlib.reload of the platform "
+           "module and the package -- executed by the script's main thread or by a parked foreign thread, over a fake /proc/stat reached through "
+           "pv.shim; only public hooks are patched: builtins.open (shim), os.sysconf (SC_CLK_TCK, SC_NPROCESSORS_ONLN), time.monotonic, time.sleep, "
+           "psutil.PROCFS_PATH; no private psutil attribute is read or written; real threads run one call at a time in scripted order; float results are snapped to the model's/spec's exact rational when "
            "within the rounding tolerance)",
            "/proc/stat format transcribed from proc(5) / fs/proc/stat.c in coq/C07/Spec.v"]
 ASSUMPTIONS = ["IEEE double arithmetic and round(x, 1) are not modelled: exact rationals are compared with the returned floats within "
@@ -773,6 +775,6 @@ MANIFEST = {
             "0 on the first call, ValueError for negative intervals. The model is tied to the code by running the real psutil over fake /proc/stat "
             "files (including a real re-import of psutil over a redirected /proc/stat), a scripted clock and real threads on generated cases.",
     "note": "Trusted: Coq kernel + vm_compute; hand-written model coq/C07/Model.v (tied by the correspondence run only); /proc/stat format in "
-            "coq/C07/Spec.v; harness (fake files, importlib.reload under the path shim, patches of time.sleep / psutil._timer / cpu_count_logical / "
-            "CLOCK_TICKS, snapping tolerance); CPython floats and round() (compared within one rounding step). cpu_stats() is left to C19.",
+            "coq/C07/Spec.v; harness (fake files, importlib.reload under the path shim, public hooks only: os.sysconf, time.monotonic, "
+            "time.sleep, PROCFS_PATH; snapping tolerance); CPython floats and round() (compared within one rounding step). cpu_stats() is left to C19.",
 }
